@@ -330,6 +330,20 @@ class XInterp(Interp):
             cache[k] = (out, e)
         return cache[k][0]
 
+    def _has_uf(s, e):
+        cache = s.__dict__.setdefault('_uf_cache', {})
+        k = e.get_id()
+        if k not in cache:
+            seen = set(); todo = [e]; found = False
+            while todo and not found:
+                x = todo.pop()
+                if x.get_id() in seen: continue
+                seen.add(x.get_id())
+                if z3.is_app(x) and x.num_args() > 0 and x.decl().kind() == z3.Z3_OP_UNINTERPRETED: found = True
+                todo.extend(x.children())
+            cache[k] = (found, e)
+        return cache[k][0]
+
     def _eval_at(s, e, pt):
         vs = s._vars_of(e)
         for v in vs:
@@ -357,10 +371,15 @@ class XInterp(Interp):
                 pc = s.path[pt['npath']]
                 rv_ = s.__dict__.get('_root_vals')
                 if rv_ and all(v.get_id() in rv_ for v in s._vars_of(pc)): pass      # definition of an irrational constant root: holds only approximately at a sample
-                elif s._eval_at(pc, pt) is not True: pt['alive'] = False
+                else:
+                    ev_ = s._eval_at(pc, pt)
+                    if ev_ is False or (ev_ is None and not s._has_uf(pc)): pt['alive'] = False
                 pt['npath'] += 1
             while pt['alive'] and pt['ndens'] < len(s.dens):
-                if s._eval_at(s.dens[pt['ndens']] != 0, pt) is not True: pt['alive'] = False
+                dn = s.dens[pt['ndens']]
+                ev_ = s._eval_at(dn != 0, pt)
+                # a divisor built from an uninterpreted function (sqrt / cos / ...) cannot be evaluated at a point: not held against it
+                if ev_ is False or (ev_ is None and not s._has_uf(dn)): pt['alive'] = False
                 pt['ndens'] += 1
         return sm
 
@@ -602,6 +621,9 @@ class XInterp(Interp):
                 s.__dict__.setdefault('_root_vals', {})[zr.get_id()] = Fraction(math.sqrt(float(v))).limit_denominator(10 ** 12)
                 roots[v] = Rat(zr)
             return roots[v]
+        if n in ('sqrt', 'llvm.sqrt.f64') and not s.approx and isinstance(args[0], Rat) and not args[0].isconst():
+            key = (Rat._k(args[0].n), Rat._k(args[0].d))
+            if key not in s.known_sqrt: return _uf(s, 'sqrt', [args[0]])      # square root of a symbolic value: an uninterpreted function of it
         if n in ('sqrt', 'llvm.sqrt.f64') and s.approx and isinstance(args[0], Rat) and args[0].isconst():
             v = args[0].value()
             r = Fraction(math.isqrt(v.numerator), 1) / Fraction(math.isqrt(v.denominator), 1) if v >= 0 else None
